@@ -6,10 +6,20 @@
 (* nondeterministic choices from Table.                                    *)
 (*   ZeroSampleGuarded = FALSE is the pinned code (D2): a sampled length   *)
 (*   of 0 in paranoid mode reaches panic("BUG: Write(), iat length was 0") *)
+(*   OvershootPadsToMultiple = FALSE is the code before the D2c repair: a  *)
+(*   paranoid write whose shortfall is smaller than a frame header pads    *)
+(*   modulo the segment length (+1469 bytes) and resamples; with a single  *)
+(*   valued table {L} such that 1469 % L is within a header of L the same  *)
+(*   shortfall recurs for ever and Write never returns.  TRUE: it pads to  *)
+(*   a further multiple of the sampled length.                             *)
+(* The table is chosen per behaviour from Tables, so that one run covers   *)
+(* every single valued table.                                              *)
 (***************************************************************************)
-EXTENDS Integers, Sequences, FiniteSets, TLC, PadBurst
+EXTENDS Integers, Sequences, FiniteSets, TLC, Json, PadBurst
 
-CONSTANTS Table,              \* the value table of the length distribution (subset of 0..1448)
+CONSTANTS Tables,             \* the value tables of the length distribution to explore (subsets of 0..1448)
+          OvershootPadsToMultiple,
+          Sticky,             \* TRUE: explore 'from here on the sampler keeps returning one value' (see StuckTerminates)
           WriteSizes,         \* application write sizes to explore
           ZeroSampleGuarded,
           Modes,              \* IAT modes to explore (subset of {0, 1, 2})
@@ -21,41 +31,56 @@ DataLen(n) == n + Hdr * NFrames(n)        \* n bytes chopped into <=1427-byte pa
 \* burst total for an n-byte write padded to sample v (IAT modes 0 and 1)
 Expected(n, v) == DataLen(n) + Added(DataLen(n) % Seg, v)
 
-VARIABLES mode,        \* 0 none, 1 enabled, 2 paranoid
+VARIABLES Table,       \* the value table of this connection's length distribution
+          mode,        \* 0 none, 1 enabled, 2 paranoid
           pc, buf,     \* program counter, bytes in frameBuf
           last,        \* size of the last write to the network made by this Write() (0: none yet)
           sum,         \* total written to the network by this Write()
           pieces,      \* number of writes to the network
           written,     \* application bytes of this Write()
-          resampled
-vars == <<mode, pc, buf, last, sum, pieces, written, resampled>>
+          resampled,
+          stick        \* -1, or the only value sampled from now on (Sticky)
+vars == <<Table, mode, pc, buf, last, sum, pieces, written, resampled, stick>>
 
-Init == /\ mode \in Modes /\ pc = "start" /\ buf = 0 /\ last = 0 /\ sum = 0 /\ pieces = 0
-        /\ written = 0 /\ resampled = 0
+Init == /\ Table \in Tables /\ mode \in Modes /\ pc = "start" /\ buf = 0 /\ last = 0 /\ sum = 0 /\ pieces = 0
+        /\ written = 0 /\ resampled = 0 /\ stick = -1
 Emit(k) == /\ last' = k
            /\ IF TrackTotals \/ mode # 2 THEN sum' = sum + k /\ pieces' = pieces + 1
               ELSE sum' = sum /\ pieces' = 1
 Chop == /\ pc = "start" /\ \E n \in WriteSizes : buf' = DataLen(n) /\ written' = n
-        /\ pc' = (IF mode = 2 THEN "iat" ELSE "pad") /\ UNCHANGED <<mode, last, sum, pieces, resampled>>
+        /\ pc' = (IF mode = 2 THEN "iat" ELSE "pad") /\ UNCHANGED <<Table, mode, last, sum, pieces, resampled, stick>>
 Pad == /\ pc = "pad" /\ \E t \in Table : buf' = buf + Added(buf % Seg, t)
-       /\ pc' = (IF mode = 0 THEN "flush" ELSE "iat") /\ UNCHANGED <<mode, last, sum, pieces, written, resampled>>
+       /\ pc' = (IF mode = 0 THEN "flush" ELSE "iat") /\ UNCHANGED <<Table, mode, last, sum, pieces, written, resampled, stick>>
 Flush == /\ pc = "flush" /\ Emit(buf) /\ buf' = 0 /\ pc' = "done"
-         /\ UNCHANGED <<mode, written, resampled>>
+         /\ UNCHANGED <<Table, mode, written, resampled, stick>>
 Iat1 == /\ pc = "iat" /\ mode = 1 /\ buf > 0
         /\ LET k == IF buf > Seg THEN Seg ELSE buf IN Emit(k) /\ buf' = buf - k
-        /\ UNCHANGED <<mode, pc, written, resampled>>
-Iat2 == /\ pc = "iat" /\ mode = 2 /\ buf > 0
-        /\ \E t \in Table :
-             IF t = 0 /\ ZeroSampleGuarded THEN UNCHANGED <<buf, last, sum, pieces, pc, resampled>>        \* resample
-             ELSE IF buf < t
-             THEN LET b2 == buf + Added(buf % Seg, t) IN
-                    IF b2 # t THEN buf' = b2 /\ pc' = pc /\ resampled' = resampled + 1 /\ UNCHANGED <<last, sum, pieces>>
-                    ELSE buf' = 0 /\ Emit(t) /\ pc' = pc /\ resampled' = 0
-             ELSE IF t = 0 THEN pc' = "panic" /\ UNCHANGED <<buf, last, sum, pieces, resampled>>
-             ELSE buf' = buf - t /\ Emit(t) /\ pc' = pc /\ resampled' = 0
-        /\ UNCHANGED <<mode, written>>
-IatDone == pc = "iat" /\ buf = 0 /\ pc' = "done" /\ UNCHANGED <<mode, buf, last, sum, pieces, written, resampled>>
-Next == Chop \/ Pad \/ Flush \/ Iat1 \/ Iat2 \/ IatDone
+        /\ UNCHANGED <<Table, mode, pc, written, resampled, stick>>
+\* the padding a repaired paranoid write inserts for a shortfall g of target t: g plus as many further t as make a frame
+RECURSIVE ParanoidPad(_, _)
+ParanoidPad(g, t) == IF g > Hdr THEN g ELSE ParanoidPad(g + t, t)
+ParanoidFrames(p) == IF p > Seg THEN <<Hdr + 1, p - (Hdr + 1)>> ELSE <<p>>
+Iat2t(t) == /\ pc = "iat" /\ mode = 2 /\ buf > 0 /\ t \in Table /\ (stick = -1 \/ stick = t)
+            /\ IF t = 0 /\ ZeroSampleGuarded THEN UNCHANGED <<buf, last, sum, pieces, pc, resampled>>        \* resample
+               ELSE IF buf < t /\ OvershootPadsToMultiple
+               THEN LET p == ParanoidPad(t - buf, t) IN
+                      /\ \A i \in 1..Len(ParanoidFrames(p)) : ParanoidFrames(p)[i] > Hdr /\ ParanoidFrames(p)[i] <= Seg
+                      /\ buf' = buf + p - t /\ Emit(t) /\ pc' = pc /\ resampled' = 0
+               ELSE IF buf < t
+               THEN LET b2 == buf + Added(buf % Seg, t) IN
+                      IF b2 # t THEN buf' = b2 /\ pc' = pc /\ resampled' = resampled + 1 /\ UNCHANGED <<last, sum, pieces>>
+                      ELSE buf' = 0 /\ Emit(t) /\ pc' = pc /\ resampled' = 0
+               ELSE IF t = 0 THEN pc' = "panic" /\ UNCHANGED <<buf, last, sum, pieces, resampled>>
+               ELSE buf' = buf - t /\ Emit(t) /\ pc' = pc /\ resampled' = 0
+            /\ UNCHANGED <<Table, mode, written, stick>>
+Iat2 == \E t \in 0..Seg : Iat2t(t)
+IatDone == pc = "iat" /\ buf = 0 /\ pc' = "done" /\ UNCHANGED <<Table, mode, buf, last, sum, pieces, written, resampled, stick>>
+\* From any point on the sampler may keep returning one non-zero value of the table.  If Write terminates from every
+\* reachable state under that sampler (StuckTerminates), a terminated state is reachable from every reachable state,
+\* which for this finite loop is termination with probability 1 under the seeded DRBG.
+StickTo(t) == /\ Sticky /\ pc = "iat" /\ mode = 2 /\ buf > 0 /\ stick = -1 /\ t \in Table /\ t > 0 /\ stick' = t
+              /\ UNCHANGED <<Table, mode, pc, buf, last, sum, pieces, written, resampled>>
+Next == Chop \/ Pad \/ Flush \/ Iat1 \/ Iat2 \/ IatDone \/ \E t \in 0..Seg : StickTo(t)
 Spec == Init /\ [][Next]_vars /\ WF_vars(Next)
 
 NoPanic == pc # "panic"
@@ -72,11 +97,19 @@ ResampleAtMostOnce == resampled <= 1
 NothingLost == (pc = "done" /\ (TrackTotals \/ mode # 2)) => sum >= DataLen(written)
 \* a zero-byte write in paranoid mode puts nothing on the wire
 EmptyParanoidWrite == (mode = 2 /\ written = 0 /\ pc # "start") => (sum = 0 /\ pieces = 0)
-\* Write terminates.  Checked as a temporal property for modes 0 and 1 (bounded loops).  In paranoid
-\* mode termination is only probabilistic (an adversarial sampler can alternate overshooting padding
-\* and small pieces forever), so what is checked there is that a progressing sample always exists:
+\* Write terminates.  Modes 0 and 1 are bounded loops (Spec).  In paranoid mode termination is probabilistic for a
+\* table of several values (checked under FairSpec) and deterministic for a single valued table (Spec is enough:
+\* AllSingles covers every such table).  NotStuckParanoid: a progressing sample exists at all (fails for {0}: D2b).
 Terminates == <>(pc \in {"done", "panic"})
+StuckTerminates == [](stick # -1 => <>(pc \in {"done", "panic"}))
 NotStuckParanoid == (mode = 2 /\ pc = "iat" /\ buf > 0) => \E t \in Table : t > 0
 \* VIEW: in paranoid mode the running total is history (every piece is checked when it is made)
-View == <<mode, pc, buf, written, resampled, last, IF mode = 2 THEN 0 ELSE sum, IF mode = 2 THEN 0 ELSE pieces>>
+View == <<stick, Table, mode, pc, buf, written, resampled, last, IF mode = 2 THEN 0 ELSE sum, IF mode = 2 THEN 0 ELSE pieces>>
+\* test generation: the (table value, write size) pairs whose paranoid write meets a shortfall smaller than a frame header
+GenShortfall == (mode = 2 /\ pc = "iat" /\ buf > 0 /\ \E t \in Table : buf < t /\ t - buf <= Hdr)
+                   => PrintT(<<"SHORTFALL", written, ToJson([tab |-> Table, n |-> written, buf |-> buf])>>)
+MixedTables == {{3, 5, 7}, {20, 21}, {0, 78, 700}, {0, 21}, {78}, {1, 1448}, {735, 745, 1427}}
+MixedQuick == {{3, 5, 7}, {20, 21}, {0, 78, 700}, {78}}
+AllSingles == {{v} : v \in 1..Seg}
+SmallSingles == {{v} : v \in 13..140}
 =============================================================================
